@@ -36,6 +36,8 @@ pub enum NRec {
     Arcs(u32, Vec<(u32, u32)>),
     Lines(u32, Vec<LineItem>),
     Short,
+    /// a blocks record (format 8 and later) that announces more blocks than bytes are left
+    BlockCount,
 }
 
 #[derive(Clone, Debug, PartialEq)]
@@ -101,6 +103,7 @@ pub fn recs_text(recs: &[NRec]) -> String {
                 s
             }
             NRec::Short => "S".to_string(),
+            NRec::BlockCount => "X".to_string(),
         })
         .collect::<Vec<_>>()
         .join(";")
@@ -288,7 +291,7 @@ pub fn encode_gcno(n: &Notes) -> Vec<u8> {
                 w.u32(0);
                 w.u32(0);
             }
-            NRec::Short => {
+            NRec::Short | NRec::BlockCount => {
                 // a record header whose payload is missing
                 w.u32(TAG_FUNCTION);
                 return w.0;
@@ -491,6 +494,10 @@ pub fn decode_gcno(b: &[u8]) -> Option<Notes> {
                 recs.push(NRec::Blocks(length));
             } else {
                 let k = rd!(r.u32());
+                if k as usize > r.b.len().saturating_sub(r.pos) {
+                    recs.push(NRec::BlockCount);
+                    return Some(Notes { version, checksum, recs });
+                }
                 recs.push(NRec::Blocks(k));
             }
         } else if tag == TAG_ARCS {
@@ -643,6 +650,8 @@ pub fn err_kind(msg: &str) -> &'static str {
         "short"
     } else if msg.starts_with("Unexpected block number") || msg.starts_with("Unexpected destination block number") {
         "blockNo"
+    } else if msg.starts_with("Unexpected number of blocks") {
+        "blockCount"
     } else if msg.starts_with("Record shorter than its content") {
         "recordLen"
     } else if msg.contains("memory allocation") || msg.contains("capacity overflow") {
@@ -756,6 +765,53 @@ pub struct BlockDump {
     pub inflow: u64,
     pub outflow: u64,
     pub lines: Vec<u32>,
+    /// outgoing arcs: (destination block, count)
+    pub succ: Vec<(usize, u64)>,
+}
+
+/// shape of the blocks that list one source line (what `get_line_count` works on)
+#[derive(Debug, Clone, Copy, Default, PartialEq)]
+pub struct LineShape {
+    /// block occurrences of the line (>= 2: the multi-block rule is used)
+    pub blocks: usize,
+    /// the arcs between those blocks contain a circuit
+    pub cycle: bool,
+    /// … a circuit all of whose arcs were taken
+    pub executed_cycle: bool,
+    /// … and a block of the line with two taken arcs to blocks of the line that lie on taken
+    /// circuits (two executed paths through the circuit structure)
+    pub two_paths: bool,
+}
+
+impl FnDump {
+    pub fn line_shape(&self, line: u32) -> LineShape {
+        let occ: usize = self.blocks.iter().map(|b| b.lines.iter().filter(|l| **l == line).count()).sum();
+        let set: Vec<usize> = (0..self.blocks.len()).filter(|&i| self.blocks[i].lines.contains(&line)).collect();
+        let inset = |b: usize| set.contains(&b);
+        // nodes on a circuit of the induced subgraph (arcs filtered by `taken`)
+        let on_cycle = |taken: bool| -> Vec<usize> {
+            let reach = |from: usize| -> Vec<usize> {
+                let mut seen: Vec<usize> = Vec::new();
+                let mut stack: Vec<usize> = vec![from];
+                while let Some(x) = stack.pop() {
+                    for &(d, c) in &self.blocks[x].succ {
+                        if inset(d) && (!taken || c > 0) && !seen.contains(&d) {
+                            seen.push(d);
+                            stack.push(d);
+                        }
+                    }
+                }
+                seen
+            };
+            set.iter().copied().filter(|&b| reach(b).contains(&b)).collect()
+        };
+        let cyc = on_cycle(false);
+        let ecyc = on_cycle(true);
+        let two = ecyc.iter().any(|&b| {
+            self.blocks[b].succ.iter().filter(|(d, c)| *c > 0 && ecyc.contains(d)).count() >= 2
+        });
+        LineShape { blocks: occ, cycle: !cyc.is_empty(), executed_cycle: !ecyc.is_empty(), two_paths: two }
+    }
 }
 
 #[derive(Debug, Clone, Default)]
@@ -792,6 +848,14 @@ pub fn dump_functions(dump: &str) -> Vec<FnDump> {
         } else if let Some(rest) = line.strip_prefix("\tDestination Edges : ") {
             if let Some(b) = out.last_mut().and_then(|f| f.blocks.last_mut()) {
                 b.outflow = sum(rest);
+                b.succ = rest
+                    .split(", ")
+                    .filter(|e| !e.trim().is_empty())
+                    .filter_map(|e| {
+                        let (d, c) = e.trim().split_once(" (")?;
+                        Some((d.trim_start_matches('*').parse().ok()?, c.trim_end_matches(')').parse().ok()?))
+                    })
+                    .collect();
             }
         } else if let Some(rest) = line.strip_prefix("\tLines : ") {
             if let Some(b) = out.last_mut().and_then(|f| f.blocks.last_mut()) {
@@ -1076,9 +1140,116 @@ pub fn gen_fn(rng: &mut Rng, version: u32, idx: u32, small: bool) -> GenFn {
     }
 }
 
+/// A function in the 408* layout made of loops whose bodies have two paths (and, now and then,
+/// an inner loop or a three-way switch): every loop is `head -> {left, right} -> latch -> head`,
+/// `head -> next`. All body blocks sit on `nlines` source lines, so the multi-block line rule and
+/// the cycle search decide the counts. Random spanning tree (always valid).
+pub fn gen_loop_fn(rng: &mut Rng, idx: u32, nlines: u32, file: &[u8]) -> GenFn {
+    let sink = 1u32;
+    let mut next_block = 2u32;
+    let mut arcs: Vec<(u32, u32, u32)> = Vec::new();
+    // returns (entry block, exit block) of a gadget
+    fn gadget(rng: &mut Rng, depth: u32, next: &mut u32, arcs: &mut Vec<(u32, u32, u32)>) -> (u32, u32) {
+        let head = *next;
+        let latch = *next + 1;
+        let after = *next + 2;
+        *next += 3;
+        let ways = if rng.chance(1, 4) { 3 } else { 2 };
+        for _ in 0..ways {
+            if depth > 0 && rng.chance(1, 3) {
+                let (e, x) = gadget(rng, depth - 1, next, arcs);
+                arcs.push((head, e, 0));
+                arcs.push((x, latch, 0));
+            } else {
+                let b = *next;
+                *next += 1;
+                arcs.push((head, b, 0));
+                arcs.push((b, latch, 0));
+                if rng.chance(1, 6) {
+                    arcs.push((b, after, 0)); // break
+                }
+            }
+        }
+        arcs.push((latch, head, 0));
+        arcs.push((head, after, 0));
+        (head, after)
+    }
+    let n_gadgets = rng.range(1, 3);
+    let mut prev: Option<u32> = None;
+    let mut first = 0;
+    for g in 0..n_gadgets {
+        let (e, x) = gadget(rng, 1, &mut next_block, &mut arcs);
+        if g == 0 {
+            first = e;
+        }
+        if let Some(p) = prev {
+            arcs.push((p, e, 0));
+        }
+        prev = Some(x);
+    }
+    arcs.push((0, first, 0));
+    arcs.push((prev.unwrap(), sink, 0));
+    let nblocks = next_block;
+    arcs.sort_by_key(|a| a.0);
+    arcs.dedup_by_key(|a| (a.0, a.1));
+    // random spanning tree over arcs + virtual arc
+    let mut parent: Vec<u32> = (0..nblocks).collect();
+    fn find(p: &mut Vec<u32>, x: u32) -> u32 {
+        let mut r = x;
+        while p[r as usize] != r {
+            r = p[r as usize];
+        }
+        r
+    }
+    let (a, b) = (find(&mut parent, sink), find(&mut parent, 0));
+    parent[a as usize] = b;
+    let mut order: Vec<usize> = (0..arcs.len()).collect();
+    rng.shuffle(&mut order);
+    for &i in &order {
+        let (s, d, _) = arcs[i];
+        let (rs, rd) = (find(&mut parent, s), find(&mut parent, d));
+        if rs != rd {
+            parent[rs as usize] = rd;
+            arcs[i].2 |= 1;
+        }
+    }
+    let start = 10 * (idx + 1);
+    let mut lines = Vec::new();
+    for b in 2..nblocks {
+        let mut items = vec![LineItem::File(file.to_vec())];
+        if b == first {
+            items.push(LineItem::Line(start));
+        }
+        items.push(LineItem::Line(start + 1 + rng.below(nlines as u64) as u32));
+        if rng.chance(1, 5) {
+            items.push(LineItem::Line(start + 1 + rng.below(nlines as u64) as u32));
+        }
+        lines.push((b, items));
+    }
+    GenFn {
+        ident: idx + 1,
+        lsum: rng.next() as u32,
+        csum: rng.next() as u32,
+        name: format!("fn{}", idx).into_bytes(),
+        file: file.to_vec(),
+        start,
+        end: start + 9,
+        nblocks,
+        arcs,
+        lines,
+        tree_ok: true,
+        sink,
+    }
+}
+
 /// counts of `walks` random walks from the entry to the exit: per arc; flow-consistent by
 /// construction (the virtual arc carries `walks`)
 pub fn gen_flow(rng: &mut Rng, f: &GenFn, walks: u64, scale: u64) -> Vec<u64> {
+    gen_flow_n(rng, f, walks, scale, 12)
+}
+
+/// the same with `free` random steps per walk before heading for the exit
+pub fn gen_flow_n(rng: &mut Rng, f: &GenFn, walks: u64, scale: u64, free: u32) -> Vec<u64> {
     let mut cnt = vec![0u64; f.arcs.len()];
     // forward skeleton: the first arc listed for a block whose target is "later" – we simply
     // fall back to the first outgoing arc that leads towards the sink by BFS distance
@@ -1095,7 +1266,7 @@ pub fn gen_flow(rng: &mut Rng, f: &GenFn, walks: u64, scale: u64) -> Vec<u64> {
     for _ in 0..walks {
         // a walk passes an arc at most ~40 times: stay inside u64
         let top = cnt.iter().copied().max().unwrap_or(0);
-        if scale.checked_mul(48).and_then(|x| top.checked_add(x)).is_none() {
+        if scale.checked_mul(48 + 4 * free as u64).and_then(|x| top.checked_add(x)).is_none() {
             break;
         }
         let mut b = 0u32;
@@ -1105,7 +1276,7 @@ pub fn gen_flow(rng: &mut Rng, f: &GenFn, walks: u64, scale: u64) -> Vec<u64> {
             if outs.is_empty() {
                 break;
             }
-            let i = if steps > 12 {
+            let i = if steps > free {
                 *outs.iter().min_by_key(|&&i| dist[f.arcs[i].1 as usize]).unwrap()
             } else {
                 outs[rng.below(outs.len() as u64) as usize]
